@@ -50,7 +50,7 @@ func resetSomeConn(w *W, prefix string) bool {
 }
 
 func c04Stream(w *W) {
-	tran := []string{"sim", "simipc", "sim", "inproc"}[w.Choose(simrt.SShape, 4)]
+	tran := []string{"sim", "simipc", "tcp", "inproc", "ipc", "tls+tcp"}[w.Choose(simrt.SShape, 6)]
 	R := []time.Duration{20 * time.Millisecond, 100 * time.Millisecond, time.Second}[w.Choose(simrt.SShape, 3)]
 	nrep := 1 + w.Choose(simrt.SShape, 3)
 	nreq := 1 + w.Choose(simrt.SShape, 5)
@@ -64,7 +64,7 @@ func c04Stream(w *W) {
 	mustSet(w, req, mangos.OptionRetryTime, R)
 	mustSet(w, req, mangos.OptionSendDeadline, 2*time.Second)
 	addr := w.Addr(tran)
-	if err := req.Listen(addr); err != nil {
+	if err := w.ListenOn(req, addr); err != nil {
 		w.Failf("HARNESS/listen", "%v", err)
 		return
 	}
@@ -82,7 +82,7 @@ func c04Stream(w *W) {
 		mustSet(w, r, mangos.OptionRecvDeadline, 3*time.Millisecond)
 		mustSet(w, r, mangos.OptionSendDeadline, 50*time.Millisecond)
 		mustSet(w, r, mangos.OptionDialAsynch, true)
-		if err := r.Dial(addr); err != nil {
+		if err := w.DialOn(r, addr); err != nil {
 			w.Failf("HARNESS/dial", "%v", err)
 			return
 		}
